@@ -143,6 +143,15 @@ func runC17Core(c *Ctx, withBackoff bool) {
 			okOrder = true
 			endpointField = strings.TrimPrefix(base, "p0.")
 		}
+		// ... or over what a method of the same receiver returns as a copy of that field, element for element
+		if hc, isCall := throughCell(strip(ia.X)).(*ssa.Call); isCall && isForwardRangeIndex(ia.Index) && len(hc.Call.Args) == 1 && hc.Call.Args[0] == ssa.Value(sign.Params[0]) {
+			if h := hc.Call.StaticCallee(); h != nil && recvNamed(h) == owner {
+				if fld := cloneOfField(w, h); fld != "" {
+					okOrder = true
+					endpointField = fld
+				}
+			}
+		}
 	}
 	c.Check(okOrder, "R1.order", "Sign|forward range over the endpoint list", w.Pos(perCall.Pos()),
 		"the per-endpoint call receives endpoints[i] for i = 0,1,2,... (range index idiom)", "the per-endpoint call does not receive the element of a forward range over a receiver field")
@@ -523,4 +532,52 @@ func runC17Backoff(c *Ctx) {
 		c.Check(maxOK, "R4.backoff", "NewSigner|WithMax(conf.Retries)", w.FnPos(ns), "retry budget from the configuration", "the retry interceptor is not given conf.Retries")
 		c.Check(boOK, "R4.backoff", "NewSigner|WithBackoff(DefaultConfig.Backoff)", w.FnPos(ns), "the repository's capped, jittered backoff is installed", "the retry interceptor does not use backoff.DefaultConfig.Backoff")
 	}
+}
+
+// cloneOfField: method h returns, on every path, its receiver's slice field F itself or a new slice of len(F)
+// filled by copy(new, F); returns F ("" otherwise).
+func cloneOfField(w *World, h *ssa.Function) string {
+	if h == nil || h.Blocks == nil || h.Signature.Results().Len() != 1 {
+		return ""
+	}
+	fieldOf := func(v ssa.Value) string {
+		ex := w.ExprIn(h, v)
+		if strings.HasPrefix(ex, "p0.") && !strings.ContainsAny(ex[3:], ".([") {
+			return ex[3:]
+		}
+		return ""
+	}
+	out := ""
+	for _, r := range liveReturns(h) {
+		for _, lf := range w.leaves(r.Results[0], r, false) {
+			v := throughCell(strip(lf.Val))
+			fld := fieldOf(v)
+			if ms, isMake := v.(*ssa.MakeSlice); isMake {
+				la := lenArg(strip(ms.Len))
+				if la == nil || fieldOf(la) == "" {
+					return ""
+				}
+				fld = fieldOf(la)
+				copied := false
+				for _, call := range callsIn(h) {
+					cv, ok := call.(*ssa.Call)
+					if !ok {
+						continue
+					}
+					if bi, isB := cv.Call.Value.(*ssa.Builtin); isB && bi.Name() == "copy" && len(cv.Call.Args) == 2 &&
+						throughCell(strip(cv.Call.Args[0])) == ssa.Value(ms) && fieldOf(cv.Call.Args[1]) == fld && InstrDominates(cv, r) {
+						copied = true
+					}
+				}
+				if !copied {
+					return ""
+				}
+			}
+			if fld == "" || (out != "" && out != fld) {
+				return ""
+			}
+			out = fld
+		}
+	}
+	return out
 }
